@@ -369,11 +369,14 @@ pub fn gen_def(rng: &mut Rng, opts: &GenOpts, pool_choices: &[usize]) -> GenDef 
     // A claim's first action must be c2pa.created / c2pa.opened.  With an intent the SDK adds it; without
     // one the definition has to supply it itself (or carry no actions when a parent would need c2pa.opened).
     let created = json!({"action": "c2pa.created", "digitalSourceType": "http://cv.iptc.org/newscodes/digitalsourcetype/digitalCapture"});
+    let mut intent = intent;
     match intent {
         Intent::None => {
+            // (a version-2 claim without any created/opened action does not validate: the definition
+            // supplies the inception itself, or — with a parent — leaves it to the Edit intent)
             if have_parent {
-                actions.clear();
-            } else if !actions.is_empty() {
+                intent = Intent::Edit;
+            } else {
                 actions.insert(0, created);
             }
         }
